@@ -793,6 +793,189 @@ def _ctor_arg(p, wrapper, call, name):
     return call.args[i] if i < len(call.args) else None
 
 
+# ---------------------------------------------------------------------------
+# R6: which request-table keys feed the value an accessor returns
+# ---------------------------------------------------------------------------
+
+def _key_class(p, f, key):
+    """a constant key, 'HTTP_*' (a key built around the client-header prefix), or None (not read)"""
+    v = p.fold(f.module, key, f.cls, f)
+    if isinstance(v, (str, bytes)):
+        return v
+    lead = None
+    if isinstance(key, ast.BinOp) and isinstance(key.op, (ast.Add, ast.Mod)):
+        lead = p.fold(f.module, key.left, f.cls, f)
+    elif isinstance(key, ast.JoinedStr) and key.values and isinstance(key.values[0], ast.Constant):
+        lead = key.values[0].value
+    elif isinstance(key, ast.Call) and isinstance(key.func, ast.Attribute) and key.func.attr == 'format':
+        lead = p.fold(f.module, key.func.value, f.cls, f)
+    if isinstance(lead, str) and lead.startswith('HTTP_'):
+        return 'HTTP_*'
+    return None
+
+
+def table_reads_feeding(p, f: Func, tables, depth=0, _seen=None):
+    """[(function, read expression, table attribute, key class)]: every read `self.<table>[k]` /
+    `self.<table>.get(k, ...)` (also through a local alias of the table, a same-class helper method or
+    property, two levels deep) whose result may become the value `f` returns.  Data flow only (flow-insensitive over
+    the locals, so a superset): tests that merely choose between values are not followed."""
+    _seen = set() if _seen is None else _seen
+    if f.qual in _seen:
+        return []
+    _seen.add(f.qual)
+    alias = {}
+    for n in walk_self(f.node):
+        if isinstance(n, ast.Assign) and len(n.targets) == 1 and isinstance(n.targets[0], ast.Name):
+            ch = dotted(n.value) or ''
+            if ch.startswith('self.') and ch[5:] in tables:
+                alias[n.targets[0].id] = ch[5:]
+
+    def table_of(e):
+        ch = dotted(e) or ''
+        if ch.startswith('self.') and ch[5:] in tables:
+            return ch[5:]
+        if isinstance(e, ast.Name):
+            return alias.get(e.id)
+        return None
+
+    binds = {}
+    for n in walk_self(f.node):
+        tgts, val = [], None
+        if isinstance(n, ast.Assign):
+            tgts, val = n.targets, n.value
+        elif isinstance(n, (ast.AnnAssign, ast.AugAssign, ast.NamedExpr)):
+            tgts, val = [n.target], n.value
+        elif isinstance(n, (ast.For, ast.AsyncFor)):
+            tgts, val = [n.target], n.iter
+        elif isinstance(n, (ast.With, ast.AsyncWith)):
+            for it in n.items:
+                if it.optional_vars is not None:
+                    for x in ast.walk(it.optional_vars):
+                        if isinstance(x, ast.Name):
+                            binds.setdefault(x.id, []).append(it.context_expr)
+        if val is None:
+            continue
+        for t in tgts:
+            for x in ast.walk(t):
+                if isinstance(x, ast.Name) and isinstance(x.ctx, ast.Store):
+                    binds.setdefault(x.id, []).append(val)
+
+    out = []
+    done_names, done_exprs = set(), set()
+    params = set(f.params())
+
+    def feed(e):
+        if e is None or id(e) in done_exprs:
+            return
+        done_exprs.add(id(e))
+        e = strip_await(e)
+        if isinstance(e, ast.Constant):
+            return
+        if isinstance(e, ast.IfExp):
+            feed(e.body)
+            feed(e.orelse)
+            return
+        if isinstance(e, ast.Compare) or (isinstance(e, ast.UnaryOp) and isinstance(e.op, ast.Not)):
+            return
+        if isinstance(e, ast.Name):
+            if e.id in alias:
+                raise UnknownIdiom('%s: the whole table %s feeds the returned value' % (f.qual, e.id))
+            if e.id not in done_names and e.id not in params:
+                done_names.add(e.id)
+                for v in binds.get(e.id, []):
+                    feed(v)
+            return
+        if isinstance(e, ast.Subscript):
+            t = table_of(e.value)
+            if t is not None:
+                out.append((f, e, t, _key_class(p, f, e.slice)))
+                return
+            feed(e.value)
+            return
+        if isinstance(e, ast.Call):
+            fn = e.func
+            if isinstance(fn, ast.Attribute):
+                t = table_of(fn.value)
+                if t is not None:
+                    if fn.attr in ('get', 'pop', 'setdefault', '__getitem__') and e.args and not isinstance(e.args[0], ast.Starred):
+                        out.append((f, e, t, _key_class(p, f, e.args[0])))
+                        for a in e.args[1:]:
+                            feed(a)
+                        for k in e.keywords:
+                            feed(k.value)
+                        return
+                    raise UnknownIdiom('%s: %s feeds the returned value' % (f.qual, short(e)))
+            tgt = p.callee(f, e)
+            if isinstance(tgt, Func) and (tgt.cls is not None and f.cls is not None) and isinstance(fn, ast.Attribute) and dotted(fn.value) == 'self':
+                if depth >= 2:
+                    raise UnknownIdiom('%s: helper chain below %s is too deep to read' % (f.qual, short(e)))
+                out.extend(table_reads_feeding(p, tgt, tables, depth + 1, _seen))
+            elif isinstance(fn, ast.Attribute):
+                feed(fn.value)          # a method of a value: `value.strip()`
+            for a in e.args:
+                feed(a.value if isinstance(a, ast.Starred) else a)
+            for k in e.keywords:
+                feed(k.value)
+            return
+        if isinstance(e, ast.Attribute):
+            ch = dotted(e) or ''
+            if ch.startswith('self.') and ch.count('.') == 1 and f.cls is not None:
+                if ch[5:] in tables:
+                    raise UnknownIdiom('%s: the whole table %s feeds the returned value' % (f.qual, ch))
+                m = p.lookup_method(f.cls.qual, e.attr)
+                if isinstance(m, Func) and m.is_property():
+                    if depth >= 2:
+                        raise UnknownIdiom('%s: helper chain below %s is too deep to read' % (f.qual, ch))
+                    out.extend(table_reads_feeding(p, m, tables, depth + 1, _seen))
+                return                  # a plain attribute: not a table read
+            feed(e.value)
+            return
+        for c in ast.iter_child_nodes(e):
+            if isinstance(c, ast.expr):
+                feed(c)
+
+    rets = [r for r in walk_self(f.node) if isinstance(r, ast.Return) and r.value is not None]
+    if not rets and depth == 0:
+        raise AnchorError('%s returns nothing' % f.qual)
+    for r in rets:
+        feed(r.value)
+    for y in walk_self(f.node):
+        if isinstance(y, (ast.Yield, ast.YieldFrom)) and y.value is not None:
+            feed(y.value)
+    return out
+
+
+def budget_source_keys(run, accessor_qual, tables, allowed, stack, witness):
+    """The length that becomes the stream budget is what the SERVER framed the body with: the accessor's value is fed
+    by the one tabled key of the tabled table and by no other request-table read."""
+    p = run.project
+    f = p.func(accessor_qual)
+    run.use(f)
+    reads = table_reads_feeding(p, f, tables)
+    what = ('%s: the stream budget (req.content_length) is fed only by %s - the length the server framed the body with'
+            % (stack, ' / '.join('self.%s[%r]' % a for a in sorted(allowed))))
+    unknown = []
+    bad = False
+    seen = set()
+    for (g, e, t, k) in reads:
+        if id(e) in seen:
+            continue
+        seen.add(id(e))
+        if (t, k) in allowed:
+            run.ok(what, g.loc(e), e)
+        elif k is None:
+            unknown.append('%s: key of %s' % (g.qual, short(e)))
+        else:
+            bad = True
+            run.fail(what + ' [also fed by self.%s[%s]%s]' % (t, k if k == 'HTTP_*' else repr(k),
+                                                              ': the HTTP_ keys are the client\'s header namespace' if str(k).startswith('HTTP_') else ''),
+                     g, e, where=g.loc(e), runtime_witness=witness)
+    if unknown and not bad:
+        raise UnknownIdiom('; '.join(unknown[:2]) + ' is not a constant the rule can read')
+    if not bad and not any((t, k) in allowed for (_g, _e, t, k) in reads):
+        raise AnchorError('%s: no read of %s feeds the returned value' % (f.qual, ' / '.join('self.%s[%r]' % a for a in sorted(allowed))))
+
+
 def lazy_wrapping(run):
     p = run.project
     # ---- WSGI
@@ -917,7 +1100,13 @@ def lazy_wrapping(run):
             raise UnknownIdiom('; '.join(unknown[:2]))
     run.check(mapped, 'WSGI: an invalid Content-Length (HTTPInvalidHeader) is mapped to a zero-length body stream', host,
               hdr[0] if hdr else call, runtime_witness='Content-Length: abc -> req.bounded_stream raises instead of yielding an empty body')
+    # ---- the accessor behind `self.content_length`: the budget is the CGI meta-variable the server framed the body with
+    budget_source_keys(run, 'falcon.request.Request.content_length', ('env',), {('env', 'CONTENT_LENGTH')}, 'WSGI',
+                       "no CONTENT_LENGTH (chunked upload) but a client header 'Content_Length: 64' (environ key HTTP_CONTENT_LENGTH): "
+                       'bounded_stream gets a 64-byte budget nobody declared and reads into the next request')
     # ---- ASGI
+    budget_source_keys(run, 'falcon.asgi.request.Request.content_length', ('_asgi_headers', 'scope'), {('_asgi_headers', b'content-length')}, 'ASGI',
+                       'a request without Content-Length: the body stream takes its budget from some other header / scope field')
     g = p.func('falcon.asgi.request.Request.stream')
     host2, call2 = _memo(run, g, ASGI)
     run.use(host2)
